@@ -709,3 +709,130 @@ Proof.
     destruct (scan t inr) as [a0 b0] eqn:E. inversion H; subst. cbn [scan]. rewrite E1, E2, E3, E4.
     rewrite (IH t ltac:(unfold ltof; simpl; lia) inr _ _ E). reflexivity.
 Qed.
+
+Lemma strip_caret_split q neg q0 : strip_caret q = (neg, q0) -> q0 <> [] ->
+  exists pre, q = pre ++ q0 /\ (forall Y, same_head q0 Y -> strip_caret (pre ++ Y) = (neg, Y))
+              /\ (forall Y, scan (pre ++ Y) true = (pre ++ fst (scan Y true), snd (scan Y true))).
+Proof.
+  unfold strip_caret. intros Hs Hne. destruct q as [|c t].
+  - injection Hs as _ Hq0'. congruence.
+  - destruct (c =? ch_caret) eqn:Ec; injection Hs as Hneg Hq0'.
+    + exists [c]. split; [rewrite Hq0'; reflexivity|]. split.
+      * intros Y _. cbn [app]. rewrite Ec, Hneg. reflexivity.
+      * intros Y. cbn [app]. apply scan_cons_plain; unfold ch_caret, ch_bsl, ch_rbr, ch_star, ch_lbr in *; lia.
+    + exists []. split; [rewrite Hq0'; reflexivity|]. split.
+      * intros Y (c0 & t0 & t0' & E1 & E2). rewrite <- Hq0' in E1. injection E1 as Ec0 _. rewrite E2, <- Ec0.
+        cbn [app]. rewrite Ec, Hneg. reflexivity.
+      * intros Y. cbn [app]. destruct (scan Y true); reflexivity.
+Qed.
+
+Lemma Range_nonempty q lo hi q1 : Range q lo hi q1 -> q <> [].
+Proof. intros H. inversion H; subst; match goal with Hr : rchar q = Some _ |- _ => destruct (rchar_head _ _ _ Hr) as (c & t & -> & _); discriminate end. Qed.
+
+(** the grammar is compositional: a derivable chunk followed by a derivable rest *)
+Lemma Parses_app c1 i1 : Parses c1 i1 -> forall p2 t2, Parses p2 t2 -> Parses (c1 ++ p2) (i1 ++ t2).
+Proof.
+  induction 1 as [|p ts HP IH|p ts HP IH|c p ts HP IH|c p ts Hm HP IH|q neg q0 lo hi q1 rs q' ts Hs HR HT HP IH];
+    intros p2 t2 H2; cbn [app].
+  - exact H2.
+  - apply P_star. apply IH. exact H2.
+  - apply P_any. apply IH. exact H2.
+  - apply P_esc. apply IH. exact H2.
+  - apply P_lit; [exact Hm|apply IH; exact H2].
+  - destruct (RangesTail_split _ _ _ HT) as (b' & Hq1 & Hb' & HT' & _).
+    destruct (Range_split _ _ _ _ HR) as (b0 & Hq0 & Hb0 & HR' & _).
+    destruct (strip_caret_split _ _ _ Hs (Range_nonempty _ _ _ _ HR)) as (pre & Hq & Hstrip & _).
+    assert (Hqq : q ++ p2 = pre ++ b0 ++ b' ++ (q' ++ p2)).
+    { rewrite Hq, Hq0, Hq1, <- !app_assoc. reflexivity. }
+    rewrite Hqq. eapply P_class with (q0 := b0 ++ b' ++ q' ++ p2) (q1 := b' ++ q' ++ p2) (q' := q' ++ p2).
+    + apply Hstrip. rewrite Hq0. apply same_head_app. exact Hb0.
+    + apply HR'. rewrite Hq1. apply same_head_app. exact Hb'.
+    + apply HT'.
+    + apply IH. exact H2.
+Qed.
+
+Lemma scan_cons_inv c t : scan (c :: t) false = (c :: t, []) ->
+  c <> ch_star /\ (c <> ch_lbr -> c <> ch_bsl -> scan t false = (t, [])).
+Proof.
+  intros H. split.
+  - intros ->. cbn in H. discriminate.
+  - intros H1 H2. cbn [scan] in H. replace (c =? ch_bsl) with false in H by lia. replace (c =? ch_lbr) with false in H by lia.
+    destruct (c =? ch_rbr).
+    + destruct (scan t false) as [a b]. inversion H; subst. reflexivity.
+    + destruct ((c =? ch_star) && negb false); [discriminate|].
+      destruct (scan t false) as [a b]. inversion H; subst. reflexivity.
+Qed.
+
+Lemma matchChunkLoop_inv : forall fuel chunk s failed, (length chunk < fuel)%nat ->
+  scan chunk false = (chunk, []) ->
+  match matchChunkLoop fuel chunk s failed with
+  | Ok _ => exists items, Parses chunk items /\ no_star items
+  | Bad => True
+  | Fuel | Panic => False
+  end.
+Proof.
+  induction fuel as [|f IH]; intros chunk s failed Hf Hsc; [lia|].
+  destruct chunk as [|c t].
+  - cbn. destruct failed; exists []; split; constructor.
+  - cbn [length] in Hf. destruct (scan_cons_inv c t Hsc) as [Hstar Hrest].
+    destruct (c =? ch_lbr) eqn:El.
+    + assert (c = ch_lbr) by lia. subst c. rewrite matchChunkLoop_lbr. cbv zeta.
+      set (failed' := if negb failed && is_nil s then true else failed).
+      destruct (if failed' then (0, s) else let '(r, n) := decodeRune s in (r, skipn n s)) as [r s1].
+      destruct (strip_caret t) as [neg t1] eqn:Es.
+      pose proof (strip_caret_len _ _ _ Es) as Hl0.
+      pose proof (classLoop_ok_inv f t1 r false false ltac:(lia)) as Hc.
+      destruct (classLoop f t1 r false false) as [[chunk' m]| | |]; try exact Hc.
+      destruct Hc as [_ Hc]. destruct (Hc eq_refl) as (lo & hi & q1 & rs & HR & HT).
+      pose proof (Range_len _ _ _ _ HR) as Hl1. pose proof (RangesTail_len _ _ _ HT) as Hl2.
+      destruct (RangesTail_split _ _ _ HT) as (b' & Hq1 & Hb' & _ & Hs').
+      destruct (Range_split _ _ _ _ HR) as (b0 & Hq0 & Hb0 & _ & Hs0).
+      destruct (strip_caret_split _ _ _ Es (Range_nonempty _ _ _ _ HR)) as (pre & Hq & _ & Hspre).
+      assert (Hsc' : scan chunk' false = (chunk', [])).
+      { cbn [scan] in Hsc. replace (ch_lbr =? ch_bsl) with false in Hsc by reflexivity.
+        replace (ch_lbr =? ch_lbr) with true in Hsc by reflexivity.
+        assert (Ht : t = pre ++ b0 ++ b' ++ chunk') by (rewrite Hq, Hq0, Hq1; reflexivity).
+        rewrite Ht, Hspre, Hs0, Hs' in Hsc. cbn [fst snd] in Hsc.
+        destruct (scan chunk' false) as [a b]. cbn [fst snd] in Hsc. inversion Hsc as [[Ha Hb]]. subst b.
+        repeat apply app_inv_head in Ha. subst a. reflexivity. }
+      specialize (IH chunk' s1 (failed' || Bool.eqb m neg) ltac:(lia) Hsc').
+      destruct (matchChunkLoop f chunk' s1 (failed' || Bool.eqb m neg)); try exact IH.
+      destruct IH as (items & HP & Hn). exists (TClass neg ((lo, hi) :: rs) :: items). split.
+      * eapply P_class; eassumption.
+      * constructor; [discriminate|exact Hn].
+    + destruct (c =? ch_qm) eqn:Eq.
+      * assert (c = ch_qm) by lia. subst c. rewrite matchChunkLoop_qm. cbv zeta.
+        specialize (Hrest ltac:(discriminate) ltac:(discriminate)).
+        assert (Hres : forall s' fl, match matchChunkLoop f t s' fl with
+                                    | Ok _ => exists items, Parses (ch_qm :: t) items /\ no_star items
+                                    | Bad => True | _ => False end).
+        { intros s' fl. specialize (IH t s' fl ltac:(lia) Hrest). destruct (matchChunkLoop f t s' fl); try exact IH.
+          destruct IH as (items & HP & Hn). exists (TAny :: items). split; [apply P_any; exact HP|constructor; [discriminate|exact Hn]]. }
+        destruct failed; cbn [negb andb]; [apply Hres|].
+        destruct s as [|s0 s']; cbn [is_nil]; [apply Hres|].
+        destruct (decodeRune (s0 :: s')) as [r n]. apply Hres.
+      * destruct (c =? ch_bsl) eqn:Eb.
+        -- assert (c = ch_bsl) by lia. subst c. destruct t as [|c' t'].
+           ++ cbn. exact I.
+           ++ rewrite matchChunkLoop_esc. cbv zeta.
+              assert (Hrest' : scan t' false = (t', [])).
+              { cbn [scan] in Hsc. replace (ch_bsl =? ch_bsl) with true in Hsc by reflexivity.
+                destruct (scan t' false) as [a b]. inversion Hsc; subst. reflexivity. }
+              assert (Hres : forall s' fl, match matchChunkLoop f t' s' fl with
+                                          | Ok _ => exists items, Parses (ch_bsl :: c' :: t') items /\ no_star items
+                                          | Bad => True | _ => False end).
+              { intros s' fl. specialize (IH t' s' fl ltac:(cbn [length] in Hf; lia) Hrest'). destruct (matchChunkLoop f t' s' fl); try exact IH.
+                destruct IH as (items & HP & Hn). exists (TLit c' :: items). split; [apply P_esc; exact HP|constructor; [discriminate|exact Hn]]. }
+              destruct failed; cbn [negb andb]; [apply Hres|].
+              destruct s as [|s0 s']; cbn [is_nil]; apply Hres.
+        -- rewrite matchChunkLoop_lit by (try (right; exact I); lia). cbv zeta.
+           specialize (Hrest ltac:(lia) ltac:(lia)).
+           assert (Hres : forall s' fl, match matchChunkLoop f t s' fl with
+                                       | Ok _ => exists items, Parses (c :: t) items /\ no_star items
+                                       | Bad => True | _ => False end).
+           { intros s' fl. specialize (IH t s' fl ltac:(lia) Hrest). destruct (matchChunkLoop f t s' fl); try exact IH.
+             destruct IH as (items & HP & Hn). exists (TLit c :: items).
+             split; [apply P_lit; [unfold is_meta; lia|exact HP]|constructor; [discriminate|exact Hn]]. }
+           destruct failed; cbn [negb andb]; [apply Hres|].
+           destruct s as [|s0 s']; cbn [is_nil]; apply Hres.
+Qed.
